@@ -142,6 +142,25 @@ void ClockDevice::doLoop(int opIndex, Verdict& v, Coverage& cov) {
     return;
   }
 
+  if (cfg.ref == 0) {
+    // rule 6: with no reference clock loop() only keeps time, i.e. it is worth exactly one
+    // keep-alive poll. The control is polled by *reading* it at the same instant and the primary
+    // is not probed around the call, so that a loop() which fails to keep the clock alive is not
+    // rescued by the harness's own reads. Divergence shows at the next GET.
+    acetime_t lsPre0 = primary->getLastSyncTime();
+    ref.beginCall();
+    primary->loop();
+    control->getNow();
+    if (ref.sentCalls || ref.readCalls) {
+      v.fail("c14-noref", "no reference clock configured, yet loop() talked to one", opIndex);
+    }
+    if (primary->getLastSyncTime() != lsPre0) {
+      v.fail("c14-lastsync", "no reference clock, yet loop() changed getLastSyncTime()", opIndex);
+    }
+    cov.cell("c14", "noref|loop");
+    return;
+  }
+
   acetime_t pre = probe(opIndex, v, "before loop()");
   acetime_t lsPre = primary->getLastSyncTime();
   ref.beginCall(); rtc.beginCall();
